@@ -429,12 +429,15 @@ func checkMain() int {
 		harnessNames = append(harnessNames, r.fn.Name())
 		perHarness[r.fn.Name()] = map[string]interface{}{"paths": r.res.Stats.Paths, "queries": r.res.Stats.Queries, "asserts": r.res.Stats.Asserts, "reached": r.res.Stats.Reached, "wall_s": r.res.Wall.Seconds(), "aborts": len(r.res.Aborts), "engine_or_target_panics": len(r.res.Panics), "counterexamples": len(r.res.Violations)}
 	}
-	var assumeList []string
+	assumeList := []string{}
+	brokenMsgsOut := append([]string{}, brokenMsgs...)
+	knownListOut := append([]string{}, knownList...)
 	for a := range assumptions {
 		assumeList = append(assumeList, a)
 	}
 	sort.Strings(assumeList)
 	assumeList = append(assumeList, boundsNote(*prop)...)
+	assumeList = append(assumeList, boundsNote("ALL")...)
 	ev := map[string]interface{}{
 		"property_id": *prop,
 		"tier":        *tier,
@@ -464,8 +467,8 @@ func checkMain() int {
 			"counterexamples_replayed":      replayed,
 			"counterexamples_confirmed":     confirmed,
 			"counterexamples_unconfirmed":   unconfirmed,
-			"known_findings_hit":            knownList,
-			"inconclusive":                  brokenMsgs,
+			"known_findings_hit":            knownListOut,
+			"inconclusive":                  brokenMsgsOut,
 			"harnesses_reaching_end":        reachEnd,
 		},
 	}
